@@ -326,7 +326,7 @@ type ServerSession struct {
 	lastRequestTime       time.Time
 	tcpConn               *ServerConn
 	announcedDesc         *description.Session // record
-	udpLastPacketTime     atomic.Int64         // record
+	udpLastPacketTime     atomic.Int64         // record (Unix nanoseconds)
 	udpCheckStreamTimer   *time.Timer
 	writerMutex           sync.RWMutex
 	writer                *asyncprocessor.Processor
@@ -675,13 +675,13 @@ func (ss *ServerSession) runInner() error {
 
 			// in case of RECORD, timeout happens when no RTP or RTCP packets are being received
 			if ss.state == ServerSessionStateRecord {
-				if now.Sub(time.Unix(lft, 0)) >= ss.s.ReadTimeout {
+				if now.Sub(time.Unix(0, lft)) >= ss.s.ReadTimeout {
 					return liberrors.ErrServerSessionTimedOut{}
 				}
 
 				// in case of PLAY, timeout happens when no RTSP keepalives and no RTCP packets are being received
 			} else if now.Sub(ss.lastRequestTime) >= ss.s.IdleTimeout &&
-				now.Sub(time.Unix(lft, 0)) >= ss.s.IdleTimeout {
+				now.Sub(time.Unix(0, lft)) >= ss.s.IdleTimeout {
 				return liberrors.ErrServerSessionTimedOut{}
 			}
 
@@ -1264,7 +1264,7 @@ func (ss *ServerSession) handleRequestInner(sc *ServerConn, req *base.Request) (
 				ss.state = ServerSessionStatePlay
 				ss.propsMutex.Unlock()
 
-				ss.udpLastPacketTime.Store(ss.s.timeNow().Unix())
+				ss.udpLastPacketTime.Store(ss.s.timeNow().UnixNano())
 
 				ss.timeDecoder = &rtptime.GlobalDecoder{}
 				ss.timeDecoder.Initialize()
@@ -1358,7 +1358,7 @@ func (ss *ServerSession) handleRequestInner(sc *ServerConn, req *base.Request) (
 			ss.state = ServerSessionStateRecord
 			ss.propsMutex.Unlock()
 
-			ss.udpLastPacketTime.Store(ss.s.timeNow().Unix())
+			ss.udpLastPacketTime.Store(ss.s.timeNow().UnixNano())
 
 			ss.timeDecoder = &rtptime.GlobalDecoder{}
 			ss.timeDecoder.Initialize()
